@@ -192,6 +192,19 @@ def check_packages(mods, order, external, implicit, tmproot):
     return problems
 
 
+def pkg_root_cause(mods, problems):
+    """C06-G6 (the cross-package form of C06-G5): wildcard imports that form a cycle through several packages, and the only thing wrong is that a second
+    resolve_aliases() still changes the tree (copies of the temporary wildcard members travel with the expansion)."""
+    import re
+    edges = {i: {int(j) for j in re.findall(r"from q(\d) import \*", src)} for i, src in enumerate(mods)}
+
+    def reach(a, b, seen=()):
+        return any(n == b or (n not in seen and reach(n, b, seen + (n,))) for n in edges.get(a, ()))
+    if any(reach(i, i) for i in edges) and all(p.startswith("resolving again changed the tree") for p in problems):
+        return ["C06-G6"]
+    return []
+
+
 def sweep_packages(k, n_random, seed, budget_s=60):
     """Directed re-export chains across packages + seeded random package sets; every load order prefix, external in (True, False, None), implicit in (True, False)."""
     import time
@@ -203,30 +216,36 @@ def sweep_packages(k, n_random, seed, budget_s=60):
         ("from q1 import x", "from q2 import x", "from q3 import x", "from q0 import x"),                                # a cycle through four packages
         ("from q1 import x\nfrom q2 import y", "from q2 import y as x", "from q3 import x as y", "x = 1"),
         ("from q3 import x", "x = 1", "from q1 import x", "from q2 import x\nfrom missing_pkg import y"),
+        # wildcard imports across packages: mutual, a cycle of three, a chain ending in a missing package
+        ("from q1 import *\nx = 1", "from q0 import *\ny = 2", "x = 1", "y = 2"),
+        ("from q1 import *\nx = 1", "from q2 import *", "from q0 import *\ny = 2", "y = 2"),
+        ("from q1 import *", "from q2 import *\nx = 1", "from q3 import *", "from missing_pkg import *\ny = 2"),
+        ("from q1 import *\nfrom q2 import *", "from q0 import *\nx = 1", "from q1 import *\ny = 2", "x = 1"),
     ]
+    n_directed = len(sets)
     for _ in range(n_random):
         sets.append(tuple("\n".join(rnd.sample(st, rnd.choice((1, 2, 2, 3)))) for _ in range(k)))
     orders = [(0,), (0, 1), (1, 0), (3, 2, 1, 0), (0, 1, 2, 3)]
     bad, done, t0 = [], 0, time.time()
     for n, mods in enumerate(sets):
-        if time.time() - t0 > budget_s or len(bad) >= 5:
+        if time.time() - t0 > budget_s or sum(1 for b in bad if not b["root_cause"]) >= 5:
             break
-        for order in (orders if n < 5 else [rnd.choice(orders)]):
-            for external in (True, False, None):
-                for implicit in (True, False):
-                    done += 1
-                    with tempfile.TemporaryDirectory() as tmp:
-                        pr = check_packages(list(mods), order, external, implicit, tmp)
-                    if pr:
-                        bad.append({"packages": list(mods), "load_order": list(order), "external": external, "implicit": implicit, "problems": pr[:3],
-                                    "signature": "packages:" + json.dumps([list(mods), list(order), external, implicit]), "root_cause": []})
-                        break
-                else:
-                    continue
-                break
-            else:
-                continue
-            break
+        configs = [(order, external, implicit) for order in (orders if n < n_directed else [rnd.choice(orders)]) for external in (True, False, None)
+                   for implicit in (True, False)]
+        classes_seen = set()
+        for order, external, implicit in configs:
+            done += 1
+            with tempfile.TemporaryDirectory() as tmp:
+                pr = check_packages(list(mods), order, external, implicit, tmp)
+            if pr:
+                rc = pkg_root_cause(mods, pr)
+                if rc and tuple(rc) in classes_seen:
+                    continue        # the same known class again for this set: one record is enough, the other configurations are still run
+                classes_seen.add(tuple(rc))
+                bad.append({"packages": list(mods), "load_order": list(order), "external": external, "implicit": implicit, "problems": pr[:3],
+                            "signature": "packages:" + json.dumps([list(mods), list(order), external, implicit]), "root_cause": rc})
+                if not rc:
+                    break           # an unclassified failure: report this set once
     return {"cases": done, "bad": bad}
 
 
